@@ -36,6 +36,11 @@ func (a *Addressing) ExtractMailbox(address string) (string, error) {
 		// Nothing but a +extension, e.g. "+tag@example.com".
 		return "", errors.New("mailbox name cannot be empty")
 	}
+	if local[0] == '.' || local[len(local)-1] == '.' || strings.Contains(local, "..") {
+		// e.g. "first.+tag@example.com": the name left after removing the extension is not one
+		// that could be looked up again.
+		return "", fmt.Errorf("mailbox name %q has a misplaced period", local)
+	}
 
 	if a.Config.MailboxNaming == config.LocalNaming {
 		return local, nil
